@@ -5,6 +5,8 @@ Coverage (property clause -> stream):
                                              given as dict or as list of pairs), also through the live view of the other vartype
   ... on a QM                                kind qm (float64 and float32 storage: "qdtype")
   ... on a CQM, in place                     cqm_inplace (fix_variable one by one), cqm_inplace_many (fix_variables(inplace=True))
+  ... on ONE expression of a CQM             cqm_view (objective / constraint lhs view .fix_variable(s); the other expressions and
+                                             the model's variables must not change; the result is also read through qm.update(view))
   ... on a CQM, new model                    cqm_copy (fix_variables(inplace=False)); receiver compared with a deep copy, and the
                                              result is edited afterwards to show it shares no state with the receiver ("alias")
   `fixed` argument forms                     "fix_form": dict / list of pairs / one-shot generator, zip, list iterator - for CQM (both
@@ -32,7 +34,7 @@ from wlib import cq, clist, cnat, cpair
 import gen
 from gen import F, enc_label, dec_label, LabelTable, coq_obs
 
-KINDS = ['bqm64', 'bqm32', 'bqmobj', 'qm', 'cqm_inplace', 'cqm_inplace_many', 'cqm_copy', 'cqm_copy', 'poly', 'poly_composite']
+KINDS = ['bqm64', 'bqm32', 'bqmobj', 'qm', 'cqm_inplace', 'cqm_inplace_many', 'cqm_copy', 'cqm_copy', 'cqm_view', 'poly', 'poly_composite']
 
 
 def rand_value(rng, vt):
@@ -126,7 +128,12 @@ def gen_case(rng, tier):
     if kind.startswith('cqm'):
         # a one-hot constraint marked discrete over some binary variables: fixing inside it exercises the markers
         bins = [v[0] for v in allvars if v[1] == 'BINARY']
-        if len(bins) >= 2 and rng.random() < 0.5:
+        if kind == 'cqm_view':
+            # fixing through the view of ONE expression (cqm.objective / cqm.constraints[l].lhs .fix_variable(s)): the generic
+            # python path of views/quadratic.py followed by Expression::remove_variable; round-6 miss C03 r6m2
+            c["which"] = rng.randrange(len(exprs))
+            c["one_by_one"] = rng.random() < 0.5
+        elif len(bins) >= 2 and rng.random() < 0.5:
             c["discrete"] = rng.sample(bins, rng.randint(2, len(bins)))
     # label shapes: sometimes the default integer labels 0..n-1 in order (a range-labelled Variables object)
     if rng.random() < 0.3:
@@ -269,6 +276,46 @@ def run_poly_composite(c, fixes, feats):
             "nontrivial": len(terms) > 0 and len(ss) > 0}
 
 
+def run_cqm_view(c, cqm, labels, fixes, feats, before, attrs_before, vars_before, form, arg):
+    """fix_variable(s) on the view of one expression of a CQM: that expression becomes its restriction, every other
+    expression, the CQM's variables and the constraint attributes stay as they were"""
+    py_fail = None
+    w = c["which"] % len(before)
+    views = cqm_exprs(cqm, labels)
+    ev = views[w]
+    own_before = list(ev.variables)
+    feats["which"] = "objective" if w == 0 else "constraint"
+    feats["one_by_one"] = bool(c.get("one_by_one"))
+    if c.get("one_by_one"):
+        for f in fixes:
+            ev.fix_variable(*f)
+    else:
+        ev.fix_variables(arg)
+    after = [gen.observe(x) for x in cqm_exprs(cqm, labels)]
+    want = [v for v in own_before if v not in dict(fixes)]
+    if list(cqm_exprs(cqm, labels)[w].variables) != want:
+        py_fail = f"variables of the fixed expression are {list(cqm_exprs(cqm, labels)[w].variables)!r}, expected {want!r}"
+    if list(cqm.variables) != vars_before:
+        py_fail = "fixing through an expression view changed the variables of the CQM"
+    if cqm_attrs(cqm, labels) != attrs_before or list(cqm.constraints) != labels:
+        py_fail = "constraint sense/rhs/weight/penalty/labels changed"
+    # the fixed expression copied into a stand-alone model reads the same coefficients (label -> position map intact)
+    qm = dimod.QuadraticModel()
+    qm.update(cqm_exprs(cqm, labels)[w])
+    o2 = gen.observe(qm)
+    if (sorted(map(json.dumps, o2["lin"])), sorted(json.dumps([sorted([json.dumps(u), json.dumps(v)]), b]) for u, v, b in o2["quad"]), o2["off"]) != \
+            (sorted(map(json.dumps, after[w]["lin"])), sorted(json.dumps([sorted([json.dumps(u), json.dumps(v)]), b]) for u, v, b in after[w]["quad"]), after[w]["off"]):
+        py_fail = f"QuadraticModel.update(view) reads {o2} but the view reports {after[w]}"
+    T = LabelTable([v[0] for v in c["allvars"]])
+    cf = clist([cpair(cnat(T.idx(l)), cq(F(v))) for l, v in fixes])
+    coq = f"(mkCase {cnat(len(T))} {cf} {clist([cpair(coq_obs(before[w], T), coq_obs(after[w], T))])})"
+    rest = [cpair(coq_obs(b, T), coq_obs(a, T)) for i, (b, a) in enumerate(zip(before, after)) if i != w]
+    extra = [f"(mkCase {cnat(len(T))} [] {clist(rest)})"] if rest else []
+    return {"coq": coq, "extra_coq": extra, "check_fn": "check", "py_fail": py_fail, "features": feats,
+            "nontrivial": bool(before[w]["lin"] or before[w]["quad"]) and any(enc_label(l) in before[w]["vars"] for l, _ in fixes),
+            "observed": {"before": before, "after": after}}
+
+
 def run_case(c):
     kind = c["kind"]
     fixes = [(dec_label(l), float(F(v))) for l, v in c["fixes"]]
@@ -337,6 +384,8 @@ def run_case(c):
         feats["cascade_kw"] = bool(kw)
         import warnings
         warnings.simplefilter('ignore', DeprecationWarning)
+        if kind == 'cqm_view':
+            return run_cqm_view(c, cqm, labels, fixes, feats, before, attrs_before, vars_before, form, arg)
         if kind == 'cqm_inplace':
             for f in fixes:
                 if cqm.fix_variable(*f, **kw) != {}:
